@@ -386,7 +386,15 @@ def ch_dec(h):
 def ja3_cmd(h):
     from cryptoparser.tls.subprotocol import TlsHandshakeClientHello
     obj, _ = TlsHandshakeClientHello.parse_immutable(bytes.fromhex(h))
-    return obj.ja3()
+    j = obj.ja3()
+    # the value must not change when the hello is composed and parsed again (wire order kept by compose)
+    try:
+        again = TlsHandshakeClientHello.parse_exact_size(bytes(obj.compose())).ja3()
+    except Exception as e:  # pylint: disable=broad-except
+        raise RoundTripError('the parsed hello cannot be composed and parsed again: %s' % type(e).__name__)
+    if again != j:
+        raise RoundTripError('ja3 after compose and parse again: %s' % again)
+    return j
 
 
 def sh_dec(ty, h):
@@ -514,6 +522,9 @@ def ext_enc(kind, arg):
         obj = ex.TlsExtensionSupportedVersionsClient(items)
     elif kind == 'S':
         obj = ex.TlsExtensionSignatureAlgorithms([_member_or_invalid(TlsSignatureAndHashAlgorithm, c, 2) for c in _zs(arg)])
+    elif kind in ('C', 'D'):
+        cls = ex.TlsExtensionSignatureAlgorithmsCert if kind == 'C' else ex.TlsExtensionDelegatedCredentials
+        return rt_hex(cls([_member_or_invalid(TlsSignatureAndHashAlgorithm, c, 2) for c in _zs(arg)]))     # the whole extension, type included
     elif kind == 'A':
         names = []
         for h in ([] if arg == '-' else arg.split(',')):
